@@ -26,6 +26,22 @@ TLC_SCALARS = ["null", "bool 1", "bool 0", "str " + bytes([97, 34, 92, 10, 1, 19
 
 KEYS = [b"a", b"b", b"k1", b"", "é".encode(), b'k"y', b"sp ace", b"\n", "名".encode(), b"x/y", b"\\", b"key_with_longer_name",
         "\U0001f600".encode(), b"\x01", b"\x7f", b"0"]        # no upper-case letters: no two keys differ only in case
+# near-miss families: different keys that a sloppy comparison takes for the same one - non-letter bytes that differ only in
+# bit 5 (what folding letter case does to a letter), a key and its proper prefix, keys that differ in the last byte or in
+# a high bit
+NEAR = [[b"k[", b"k{"], [b"a\\b", b"a|b"], [b"]", b"}"], [b"x^", b"x~"], [b"_", b"\x7f"], [b"@", b"`"], [b"ab", b"abc", b"abd"],
+        [b"items[0", b"items{0"], [b"0", b"\x10", b"p"], ["\u00e9".encode(), "\u00c9".encode()], [b"1", b"\x11", b"q"]]
+
+
+def pick_keys(rng, n):
+    """n distinct keys; every third time with a complete near-miss family among them"""
+    if n >= 2 and rng.random() < 0.35:
+        fam = rng.choice(NEAR)
+        rest = [k for k in rng.sample(KEYS, min(len(KEYS), n)) if k not in fam]
+        keys = (list(fam) + rest)[:max(n, len(fam))]
+        rng.shuffle(keys)
+        return keys
+    return rng.sample(KEYS, min(n, len(KEYS)))
 STR_ATOMS = [b"a", b"Z", b" ", b'"', b"\\", b"/", b"\b", b"\f", b"\n", b"\r", b"\t", b"\x01", b"\x1f", b"\x7f", "é".encode(), "ß".encode(),
              "€".encode(), "名".encode(), "퟿".encode("utf-8", "surrogatepass") if False else "߿".encode(), "￿".encode(),
              "\U0001f600".encode(), "\U00010000".encode(), "\U0010ffff".encode(), b"u0041", b"\\u", b"</script>", b"%s", b"'"]
@@ -93,7 +109,7 @@ def rand_tree(rng, depth, budget, top=True):
     budget[0] -= 1
     n = rng.choice([0, 1, 2, 2, 3, 4])
     if r < 0.75 if top else r < 0.78:
-        keys = rng.sample(KEYS, min(n, len(KEYS)))
+        keys = pick_keys(rng, n)
         return ("obj", [(k, rand_tree(rng, depth - 1, budget, False)) for k in keys])
     return ("arr", [rand_tree(rng, depth - 1, budget, False) for _ in range(n)])
 
@@ -147,7 +163,7 @@ def ex_build(rng, depth):
 
 def ex_object(rng):
     ops = ["RESET", "NEW 0 obj"]
-    keys = rng.sample(KEYS, rng.randint(2, 5))
+    keys = pick_keys(rng, rng.randint(2, 5))
     present = []
     pending = None           # a value that was refused and is still owned by slot 1
     for _ in range(rng.randint(6, 22)):
